@@ -1076,6 +1076,56 @@ def _setitem_da(p, a):
 defop("setitem", 1, _g_setitem, _setitem_np, _setitem_da, "index setitem", w=2)
 
 
+def _g_setitem_array(g, ins):
+    (a,) = ins
+    need(a.np.size > 0 and a.kind in "fi" and a.ndim >= 1)
+    idx = []
+    for n in a.shape:
+        r = g.rng.random()
+        if r < 0.35 or n == 0:
+            idx.append(slice(None))
+        else:
+            lo = g.rng.randint(0, n - 1)
+            hi = g.rng.randint(lo + 1, n)
+            idx.append(slice(lo, hi, g.rng.choice([None, None, 2])))
+    idx = tuple(idx)
+    sel = a.np[idx].shape
+    need(int(np.prod(sel)) > 0)
+    bshape = [1 if (g.rng.random() < 0.3) else k for k in sel]
+    if g.rng.random() < 0.3:
+        bshape = bshape[1:]
+    masked = a.kind == "f" and g.rng.random() < 0.4
+    return {"idx": enc_index(idx), "vshape": bshape, "vseed": g.rng.randrange(10**6), "masked": masked, "as_dask": (not masked) and g.rng.random() < 0.4}
+
+
+def _setitem_value(p, dtype):
+    r = np.random.default_rng(p["vseed"])
+    v = (r.integers(-40, 40, size=tuple(p["vshape"])) * (0.5 if np.dtype(dtype).kind == "f" else 1)).astype(dtype)
+    if p["masked"]:
+        m = r.random(v.shape) < 0.4
+        v = np.ma.array(v, mask=m)
+    return v
+
+
+def _setitem_array_np(p, a):
+    v = _setitem_value(p, a.dtype)
+    b = np.ma.array(a.copy()) if p["masked"] else a.copy()
+    b[dec_index(p["idx"])] = v
+    return b
+
+
+def _setitem_array_da(p, a):
+    v = _setitem_value(p, a.dtype)
+    if p["as_dask"]:
+        v = da().from_array(v, chunks=tuple(max(1, (k + 1) // 2) for k in v.shape))
+    b = a.copy()
+    b[dec_index(p["idx"])] = v
+    return b
+
+
+defop("setitem_array", 1, _g_setitem_array, _setitem_array_np, _setitem_array_da, "index setitem", w=1.5)
+
+
 def _g_setitem_mask(g, ins):
     (a,) = ins
     need(a.np.size > 0 and a.kind in "fi" and a.inx == 0)
@@ -1354,6 +1404,65 @@ def _map_overlap_da(p, a):
 
 defop("map_overlap", 1, _g_map_overlap, _map_overlap_np, _map_overlap_da, "window overlap", w=2)
 
+# ---- bottleneck moving-window reductions (xarray's rolling path) ------------------------------
+
+
+def _g_move(g, ins):
+    (a,) = ins
+    need(a.ndim >= 1 and a.np.dtype == np.float64 and a.np.size > 0)
+    ax = g.rng.randrange(a.ndim)
+    n = a.shape[ax]
+    need(n >= 2)
+    w = g.rng.randint(2, min(n, 6))
+    fn = g.rng.choice(["move_sum", "move_mean", "move_min", "move_max"])
+    mc = g.rng.choice([None, None, 1, w, max(1, w - 1)])
+    return {"fn": fn, "w": w, "axis": ax, "min_count": mc}
+
+
+def _move_np(p, a):
+    import bottleneck as bn
+
+    return getattr(bn, p["fn"])(a.copy(), p["w"], min_count=p["min_count"], axis=p["axis"])
+
+
+def _move_da(p, a):
+    import bottleneck as bn
+
+    return a.map_overlap(getattr(bn, p["fn"]), depth={p["axis"]: (p["w"] - 1, 0)}, dtype="f8", window=p["w"], min_count=p["min_count"], axis=p["axis"])
+
+
+defop("move_window", 1, _g_move, _move_np, _move_da, "window move", w=1.5, inexact=lambda p, ins, out: 0 if p["fn"] in ("move_min", "move_max") else 1)
+
+
+# ---- ufunc(..., where=<array>, out=<array>) ---------------------------------------------------
+
+
+def _g_where_out(g, ins):
+    x, y = ins
+    need(x.np.size > 0 and x.ndim >= 1 and x.kind in "fi" and y.kind in "fiu")
+    need(broadcastable(y.shape, x.shape) and len(y.shape) <= len(x.shape))
+    need(all(b in (1, a) for a, b in zip(x.shape[::-1], y.shape[::-1])))
+    fn = g.rng.choice(["add", "subtract", "multiply", "maximum"])
+    need(np.result_type(x.np.dtype, y.np.dtype) == x.np.dtype)
+    if fn == "multiply":
+        need(x.mag <= 2**20 and y.mag <= 2**10 and x.inx == 0 and y.inx == 0)
+    return {"fn": fn, "thr": g.rng.randint(-2, 3), "mask_of": g.rng.choice(["x", "y"]), "out": g.rng.choice(["x", "x", "y2"])}
+
+
+def _where_out(mod, p, x, y):
+    m = (x if p["mask_of"] == "x" else y) > p["thr"]
+    if mod is np:
+        m = np.broadcast_to(m, x.shape)
+        o = (x if p["out"] == "x" else x * 2).copy()
+        getattr(np, p["fn"])(x, y, where=m, out=o)
+        return o
+    o = x.copy() if p["out"] == "x" else x * 2  # x.copy() shares x's expression: `out` then has x's other consumers as siblings
+    r = getattr(mod, p["fn"])(x, y, where=m, out=o)
+    return o
+
+
+defop("ufunc_where_out", 2, _g_where_out, lambda p, x, y: _where_out(np, p, x, y), lambda p, x, y: _where_out(da(), p, x, y), "elemwise whereout", w=1.5)
+
 # ---- map_blocks / blockwise -----------------------------------------------------------
 
 
@@ -1578,6 +1687,10 @@ class Prog:
             # inexact input is only as accurate as eps * |input|, so carry the history's magnitude
             mag = max([mag] + [self.vars[i].mag for i in in_ids if self.vars[i].inx > 0])
         v = Var(len(self.vars), npv, dav, inx=inx, mag=mag, depth=depth, eps=eps)
+        if isinstance(npv, np.ma.MaskedArray):
+            # a masked value assigned into an unmasked array: terminal (only some blocks become masked,
+            # what further operations do with such mixed blocks is outside the properties)
+            v.flags.add("masked")
         self.vars.append(v)
         self.steps.append({"op": opname, "in": list(in_ids), "p": p})
         return v
@@ -1656,7 +1769,7 @@ class Prog:
         return self.apply("from_array", [], p)
 
     def pick(self, k, usable=None):
-        cands = [v for v in self.vars if "unknown" not in v.flags] if usable is None else usable
+        cands = [v for v in self.vars if not (v.flags & {"unknown", "masked"})] if usable is None else usable
         if not cands:
             return None
         # bias toward recent variables but allow any (sharing)
